@@ -11,6 +11,8 @@ const NAME_CHARS: &[char] = &[
     'a', 'b', 'z', 'A', 'Z', '_', '0', '9', ' ', '-', '.', '*', '$', '@', '[', ']', '(', ')', ',', ':', '?', '!', '<', '=', '&', '|', '/', '~',
     '\'', '"', '\\', '\n', '\t', '\r', '\u{0}', '\u{8}', '\u{c}', '\u{1f}', '\u{7f}', '\u{80}', '\u{a0}', '\u{e9}', '\u{2028}', '\u{3000}',
     '\u{4e2d}', '\u{d7ff}', '\u{e000}', '\u{ffff}', '\u{10000}', '\u{1d11e}', '\u{10ffff}', '\u{263a}',
+    // invisible format characters: direction marks (Bidi_Control), joiners, soft hyphen, BOM inside a name
+    '\u{200e}', '\u{200f}', '\u{202a}', '\u{202c}', '\u{202e}', '\u{2066}', '\u{2069}', '\u{61c}', '\u{200d}', '\u{ad}', '\u{feff}', '\u{2060}', 'u', 'n',
 ];
 
 pub fn gen_string(src: &mut Src) -> String {
